@@ -108,11 +108,27 @@ Proof.
 Qed.
 Lemma sep_cons_space : forall r X, (sep_text (IgSpace :: r) ++ X)%string = String c_sp (sep_text r ++ X)%string.
 Proof. intros r X. reflexivity. Qed.
-Lemma id_skip_sep : forall s X, idsep_ok s = true -> stops is_b1 X = true -> id_skip (sep_text s ++ X)%string = X.
+Lemma ws_not_b1 : forall c, is_ws c = false -> is_b1 c = false.
+Proof.
+  intros c H. destruct (is_b1 c) eqn:E; [|reflexivity]. exfalso.
+  unfold is_b1 in E. apply orb_true_iff in E. destruct E as [E|E]; [apply orb_true_iff in E; destruct E as [E|E]|];
+  apply Ascii.eqb_eq in E; subst c; discriminate H.
+Qed.
+Lemma id_skip_go_stop : forall f X, stops is_ws X = true -> id_skip_go f X = X.
+Proof.
+  intros [|f] [|c r] H; try reflexivity. cbn [stops] in H. apply negb_true_iff in H. cbn [id_skip_go].
+  rewrite (ws_not_b1 _ H).
+  destruct (Ascii.eqb c c_nl) eqn:E1; [apply Ascii.eqb_eq in E1; subst c; discriminate H|].
+  destruct (Ascii.eqb c c_cr) eqn:E2; [apply Ascii.eqb_eq in E2; subst c; discriminate H|]. reflexivity.
+Qed.
+Lemma id_skip_sep : forall s X, idsep_ok s = true -> stops is_ws X = true -> id_skip (sep_text s ++ X)%string = X.
 Proof.
   intros [|i r] X Hs HX; [discriminate Hs|]. destruct i; try discriminate Hs. cbn [idsep_ok] in Hs.
-  rewrite sep_cons_space. unfold id_skip. rewrite Ascii.eqb_refl. cbn [span].
-  change (is_b1 c_sp) with true. cbv iota. rewrite (span_app _ _ _ (b1_sep_text _ Hs) HX). reflexivity.
+  rewrite sep_cons_space. unfold id_skip. cbn [id_skip_go]. change (is_b1 c_sp) with true. cbv iota. cbn [span].
+  change (is_b1 c_sp) with true. cbv iota.
+  assert (HX1 : stops is_b1 X = true).
+  { destruct X as [|c t]; [reflexivity|]. cbn [stops] in *. apply negb_true_iff in HX. now rewrite (ws_not_b1 _ HX). }
+  rewrite (span_app _ _ _ (b1_sep_text _ Hs) HX1). cbn [snd]. apply id_skip_go_stop. exact HX.
 Qed.
 Lemma idsep_name_end : forall s X, idsep_ok s = true -> name_end (sep_text s ++ X)%string = true.
 Proof. intros [|i r] X Hs; [discriminate Hs|]. destruct i; try discriminate Hs. reflexivity. Qed.
@@ -127,8 +143,9 @@ Proof. intros [|i r] Hs; [reflexivity|]. destruct i; try discriminate Hs. exact 
 Section Names.
   Variables (o cl : ascii) (inner plain : ascii -> bool).
   Hypothesis inner_cl : forall c, inner c = false -> c = cl.
-  Hypothesis o_not_b1 : is_b1 o = false.
+  Hypothesis o_not_ws : is_ws o = false.
   Hypothesis plain_end : forall c, is_paren c || Ascii.eqb c c_sp = true -> plain c = false.
+  Hypothesis plain_ws : forall c, plain c = true -> is_ws c = false.
   Definition wf_tok (s : string) : bool :=
     match s with
     | String c r => if Ascii.eqb c o then wf_wrapped inner r else sall plain s && negb (is_b1 c)
@@ -143,12 +160,12 @@ Section Names.
       destruct (span inner r) as [a b] eqn:E. destruct a as [|x a']; [discriminate Hn|].
       destruct b as [|c2 b']; [discriminate Hn|]. destruct b'; [|discriminate Hn].
       destruct (span_eq _ _ _ _ E) as [Er [_ Hst]]. cbn [stops] in Hst. apply negb_true_iff in Hst. apply inner_cl in Hst. subst c2.
-      unfold scan_name. rewrite (id_skip_sep _ _ Hs) by (cbn [append stops]; now rewrite o_not_b1).
+      unfold scan_name. rewrite (id_skip_sep _ _ Hs) by (cbn [append stops]; now rewrite o_not_ws).
       cbn [append]. rewrite Ascii.eqb_refl. rewrite (span_app_stop _ _ _ _ _ rest E). cbn [append]. now rewrite Er.
     - apply andb_true_iff in Hn. destruct Hn as [Hp Hb]. apply negb_true_iff in Hb.
-      unfold scan_name. rewrite (id_skip_sep _ _ Hs) by (cbn [append stops]; now rewrite Hb).
-      cbn [append]. rewrite Eo.
       assert (Hc : plain c = true) by (unfold sall in Hp; cbn [str_forall] in Hp; apply andb_true_iff in Hp; tauto).
+      unfold scan_name. rewrite (id_skip_sep _ _ Hs) by (cbn [append stops]; now rewrite (plain_ws _ Hc)).
+      cbn [append]. rewrite Eo.
       rewrite Hc. change (String c (r ++ rest)%string) with (String c r ++ rest)%string.
       rewrite (span_app _ _ _ Hp); [reflexivity|].
       destruct rest as [|d t]; [reflexivity|]. cbn [name_end] in Hr. cbn [stops]. now rewrite (plain_end _ Hr).
@@ -160,15 +177,22 @@ Proof. intros c H. unfold not_quote in H. apply negb_false_iff, Ascii.eqb_eq in 
 Lemma not_rpar_cl : forall c, not_rpar c = false -> c = c_rpar.
 Proof. intros c H. unfold not_rpar in H. apply negb_false_iff, Ascii.eqb_eq in H. exact H. Qed.
 Lemma ide_char_end : forall c, is_paren c || Ascii.eqb c c_sp = true -> ide_char c = false.
-Proof. intros c H. unfold ide_char. now rewrite H. Qed.
+Proof.
+  intros c H. unfold ide_char. apply orb_true_iff in H. destruct H as [H|H]; [now rewrite H|].
+  apply Ascii.eqb_eq in H. subst c. reflexivity.
+Qed.
 Lemma id_char_end : forall c, is_paren c || Ascii.eqb c c_sp = true -> id_char c = false.
 Proof. intros c H. unfold id_char. now rewrite (ide_char_end _ H). Qed.
+Lemma ide_char_ws : forall c, ide_char c = true -> is_ws c = false.
+Proof. intros c H. unfold ide_char in H. apply negb_true_iff, orb_false_iff in H. tauto. Qed.
+Lemma id_char_ws : forall c, id_char c = true -> is_ws c = false.
+Proof. intros c H. unfold id_char in H. apply andb_true_iff in H. apply ide_char_ws. tauto. Qed.
 Lemma scan_id_tok : forall s n rest, idsep_ok s = true -> wf_id n = true -> name_end rest = true ->
   scan_id (sep_text s ++ n ++ rest)%string = Some (n, rest).
-Proof. intros s n rest. exact (scan_name_tok c_quote c_quote not_quote id_char not_quote_cl eq_refl id_char_end s n rest). Qed.
+Proof. intros s n rest. exact (scan_name_tok c_quote c_quote not_quote id_char not_quote_cl eq_refl id_char_end id_char_ws s n rest). Qed.
 Lemma scan_ide_tok : forall s n rest, idsep_ok s = true -> wf_ide n = true -> name_end rest = true ->
   scan_ide (sep_text s ++ n ++ rest)%string = Some (n, rest).
-Proof. intros s n rest. exact (scan_name_tok c_lpar c_rpar not_rpar ide_char not_rpar_cl eq_refl ide_char_end s n rest). Qed.
+Proof. intros s n rest. exact (scan_name_tok c_lpar c_rpar not_rpar ide_char not_rpar_cl eq_refl ide_char_end ide_char_ws s n rest). Qed.
 
 (** ** the loops *)
 Lemma items_len {Y} (f : Y -> string) : (forall y, 1 <= String.length (f y)) ->
@@ -902,15 +926,13 @@ top""))" = Some [XSName "top"] /\
   parse_sdf "(DELAYFILE(CELL(INSTANCE)))" = Some [XSCell []] /\
   parse_sdf "(DELAYFILE(CELL(INSTANCEu1)))" = Some [XSCell [XName "u1"]] /\
   parse_sdf "(DELAYFILE(CELL(INSTANCE u1
-)))" = Some [XSCell [XName "u1
-"]] /\
+)))" = Some [XSCell [XName "u1"]] /\
   parse_sdf "(DELAYFILE(CELL(INSTANCE u1 
 )))" = Some [XSCell [XName "u1"]] /\
-  parse_sdf "(DELAYFILE(CELL(INSTANCE	u1)))" = Some [XSCell [XName "	u1"]] /\
+  parse_sdf "(DELAYFILE(CELL(INSTANCE	u1)))" = Some [XSCell [XName "u1"]] /\
   parse_sdf "(DELAYFILE(CELL(INSTANCE 	u1)))" = Some [XSCell [XName "u1"]] /\
   parse_sdf "(DELAYFILE(CELL(INSTANCE 
-)))" = Some [XSCell [XName "
-"]] /\
+)))" = Some [XSCell []] /\
   parse_sdf "(DELAYFILE(CELL(INSTANCE ""u 1"")))" = Some [XSCell [XName """u 1"""]] /\
   parse_sdf "(DELAYFILE(CELL(INSTANCE ""u1)))" = None /\
   parse_sdf "(DELAYFILE(CELL(INSTANCE u1 u2)))" = None /\
@@ -927,10 +949,9 @@ top""))" = Some [XSName "top"] /\
   parse_sdf "(DELAYFILE(CELL(DELAY(ABSOLUTE(IOPATH A Z ( 1: 2: 3)(::)())))))" = Some [XSCell [XDelay [XEntry true "A" "Z" [["1"; "2"; "3"]; [""; ""; ""]; []]]]] /\
   parse_sdf "(DELAYFILE(CELL(DELAY(ABSOLUTE(IOPATH A Z (1 :2:3))))))" = None /\
   parse_sdf "(DELAYFILE(CELL(DELAY(ABSOLUTE(IOPATH A Z (1:2:3 ))))))" = None /\
-  parse_sdf "(DELAYFILE(CELL(DELAY(ABSOLUTE(IOPATH A	Z (1:2:3))))))" = Some [XSCell [XDelay [XEntry true "A	Z" "(1:2:3)" []]]] /\
+  parse_sdf "(DELAYFILE(CELL(DELAY(ABSOLUTE(IOPATH A	Z (1:2:3))))))" = Some [XSCell [XDelay [XEntry true "A" "Z" [["1"; "2"; "3"]]]]] /\
   parse_sdf "(DELAYFILE(CELL(DELAY(ABSOLUTE(IOPATH A Z
-(1:2:3))))))" = Some [XSCell [XDelay [XEntry true "A" "Z
-" [["1"; "2"; "3"]]]]] /\
+(1:2:3))))))" = Some [XSCell [XDelay [XEntry true "A" "Z" [["1"; "2"; "3"]]]]] /\
   parse_sdf "(DELAYFILE(CELL(DELAY(ABSOLUTE(INTERCONNECT ""a""""b c""(1.2.3:--:-))))))" = Some [XSCell [XDelay [XEntry false """a""" """b c""" [["1.2.3"; "--"; "-"]]]]] /\
   parse_sdf "(DELAYFILE(CELL(DELAY(ABSOLUTE(INTERCONNECT (posedge a) b (1:2:3))))))" = None /\
   parse_sdf "(DELAYFILE(CELL(DELAY(ABSOLUTE(INTERCONNECT a b (1:2:3)) // (IOPATH A Z (9:9:9))
@@ -993,11 +1014,23 @@ Example dec8_examples : dec8 "1.5" = Some 12%Z /\ dec8 "-.125" = Some (-1)%Z /\ 
   dec8 "0.1" = None /\ dec_valid "0.1" = true /\ dec8 "1.2.3" = None /\ dec_valid "1.2.3" = false /\ dec_valid "-" = false /\ dec_valid "." = false /\
   dec8 "123456789012345" = Some 987654312098760%Z /\ dec8 "1234567890123456" = None /\ dec_valid "--1" = false.
 Proof. vm_compute. repeat split; reflexivity. Qed.
-(* what the grammar does with a tab or a newline next to a name (see C14_text_* findings): the newline becomes part of the
-   instance name, the tab glues the two pins of an IOPATH together *)
-Theorem name_whitespace_refuted :
-  parse_sdf ("(DELAYFILE(CELL(INSTANCE u1" ++ nl1 ++ ")))") = Some [XSCell [XName ("u1" ++ nl1)]] /\
+(* since fix d9c2c16 (ID / ID_OR_EDGE exclude every \s character) a tab, line break, form feed or any other \s character ENDS a name: the
+   instance of `(INSTANCE u1` NEWLINE `)` is "u1", `A<TAB>Z` are two pins (before the fix the newline became part of the instance name and the
+   cell's delays were dropped; `A<TAB>Z` was one pin and the transformer raised) *)
+Theorem name_whitespace_ends_name :
+  parse_sdf ("(DELAYFILE(CELL(INSTANCE u1" ++ nl1 ++ ")))") = Some [XSCell [XName "u1"]] /\
   parse_sdf "(DELAYFILE(CELL(INSTANCE u1 )))" = Some [XSCell [XName "u1"]] /\
-  parse_sdf ("(DELAYFILE(CELL(DELAY(ABSOLUTE(IOPATH A" ++ String c_tab "Z (1:2:3))))))") = Some [XSCell [XDelay [XEntry true ("A" ++ String c_tab "Z") "(1:2:3)" []]]] /\
-  exists t, tree_of_text ("(DELAYFILE(CELL(DELAY(ABSOLUTE(IOPATH A" ++ String c_tab "Z (1:2:3))))))") = Some t /\ start_cb t = Err.
-Proof. split; [vm_compute; reflexivity|]. split; [vm_compute; reflexivity|]. split; [vm_compute; reflexivity|]. eexists. split; vm_compute; reflexivity. Qed.
+  parse_sdf ("(DELAYFILE(CELL(INSTANCE" ++ String c_tab "u1" ++ String c_cr nl1 ++ ")))") = Some [XSCell [XName "u1"]] /\
+  parse_sdf ("(DELAYFILE(CELL(DELAY(ABSOLUTE(IOPATH A" ++ String c_tab "Z (1:2:3))))))") = Some [XSCell [XDelay [XEntry true "A" "Z" [["1"; "2"; "3"]]]]] /\
+  (forall c, is_ws c = true -> ide_char c = false /\ id_char c = false) /\
+  (forall c, is_b1 c = true \/ c = c_nl \/ c = c_cr -> is_ws c = true) /\
+  exists t df, tree_of_text ("(DELAYFILE(CELL(INSTANCE u1" ++ nl1 ++ ")(DELAY(ABSOLUTE(IOPATH A" ++ String c_tab "Z (1:2:3))))))") = Some t /\
+               start_cb t = Ok df /\ map fst (df_cells df) = ["u1"].
+Proof.
+  split; [vm_compute; reflexivity|]. split; [vm_compute; reflexivity|]. split; [vm_compute; reflexivity|]. split; [vm_compute; reflexivity|].
+  split. { intros c H. unfold id_char, ide_char. rewrite H, orb_true_r. split; reflexivity. }
+  split. { intros c [H|[H|H]]; [|subst c; reflexivity|subst c; reflexivity].
+           unfold is_b1 in H. apply orb_true_iff in H. destruct H as [H|H]; [apply orb_true_iff in H; destruct H as [H|H]|];
+           apply Ascii.eqb_eq in H; subst c; reflexivity. }
+  eexists. eexists. split; [vm_compute; reflexivity|]. split; vm_compute; reflexivity.
+Qed.
